@@ -231,7 +231,7 @@ func candProposal(g *Gen, t *rapid.T, spent map[string]bool) *cand {
 	if drain {
 		typ = 5
 	}
-	if typ == 0 && h >= k.Params.CRConfiguration.CRCProposalV1Height {
+	if !drain && typ <= 2 && h >= k.Params.CRConfiguration.CRCProposalV1Height {
 		// close a proposal that the voters agreed to
 		target := g.pickProposal(t, "closetarget", func(ps *crstate.ProposalState) bool { return ps.Status == crstate.VoterAgreed })
 		if target != nil {
@@ -240,11 +240,12 @@ func candProposal(g *Gen, t *rapid.T, spent map[string]bool) *cand {
 			p.Recipient = common.Uint168{}
 			SignProposal(p, owner, member, version)
 			tx := k.ProposalTx(owner, p, version)
-			return &cand{"proposal", tx, fmt.Sprintf("prop-%d", g.nick), fmt.Sprintf("proposal(close %x,by c%d)", target.Proposal.Hash[:4], mi)}
+			// one close proposal per target and block (a mempool conflict slot), unless several are allowed
+			return &cand{"proposal", tx, c29Subject(g, "close", target.Proposal.Hash), fmt.Sprintf("proposal(close %x,by c%d)", target.Proposal.Hash[:4], mi)}
 		}
 	}
 	bs := budgetLayout(t)
-	if typ == 1 {
+	if typ == 3 {
 		p.ProposalType = payload.ELIP
 		bs = []payload.Budget{{Type: payload.Imprest, Stage: 0}, {Type: payload.FinalPayment, Stage: 1}}
 	}
@@ -470,7 +471,19 @@ func candTracking(g *Gen, t *rapid.T, spent map[string]bool) *cand {
 		}
 	}
 	var newOwner *Key
-	switch rapid.IntRange(0, 11).Draw(t, "trackingtype") {
+	ttype := rapid.IntRange(0, 11).Draw(t, "trackingtype")
+	// the target of a close proposal that is still being voted on: end it
+	// through tracking first, half of the time
+	for _, cp := range k.Proposals() {
+		if cp.Proposal.ProposalType == payload.CloseProposal && (cp.Status == crstate.Registered || cp.Status == crstate.CRAgreed) &&
+			cp.Proposal.TargetProposalHash.IsEqual(ps.Proposal.Hash) && ps.Status == crstate.VoterAgreed {
+			if rapid.Bool().Draw(t, "endtarget") {
+				ttype = 7 + 2*rapid.IntRange(0, 1).Draw(t, "endhow") // Terminated or Finalized
+			}
+			break
+		}
+	}
+	switch ttype {
 	case 0:
 		pl.ProposalTrackingType = payload.Common
 	case 1, 2, 3, 4, 5:
